@@ -426,14 +426,17 @@ pub async fn sanitize_async_with_config<R: AsyncRead + AsyncSkip>(
         Some(0) => {
             log::info!("metadata: 0x{metadata_len:08x} bytes");
         }
-        Some(size @ PAD_HEADER_SIZE..=MAX_PAD_SIZE) => {
+        // The padding becomes part of the returned metadata. Never let it outgrow the metadata itself (whose size is
+        // bounded by `max_metadata_size`); a larger gap is closed by displacing the chunk offsets instead.
+        Some(size @ PAD_HEADER_SIZE..=MAX_PAD_SIZE) if size <= metadata_len => {
             pad_size = size;
             log::info!("metadata: 0x{metadata_len:08x} bytes; adding padding of 0x{pad_size:08x} bytes");
         }
         mdat_backward_displacement => {
             let mdat_displacement = match mdat_backward_displacement {
                 Some(mdat_backward_displacement) => {
-                    mdat_backward_displacement.try_into().ok().and_then(i32::checked_neg)
+                    // Negate before narrowing: a backward displacement of exactly 2^31 bytes still fits an i32.
+                    i64::try_from(mdat_backward_displacement).ok().and_then(|d| i32::try_from(-d).ok())
                 }
                 None => metadata_len.checked_sub(data.offset).unwrap().try_into().ok(),
             };
